@@ -1,4 +1,5 @@
 //! What the oracles see of one successfully executed operation.
+use chewing::conversion::Interval;
 use chewing::editor::keyboard::KeyEvent;
 
 pub struct Step<'a> {
@@ -18,6 +19,16 @@ pub struct Step<'a> {
     pub history: &'a [String],
     pub seed: u64,
     pub sid: u64,
+    /// `display()` immediately before / after the operation (`None` = the getter panicked)
+    pub display_pre: Option<&'a str>,
+    pub display_post: Option<&'a str>,
+    /// `len()` (symbols in the pre-edit) before / after
+    pub len_pre: usize,
+    pub len_post: usize,
+    /// `display_commit()` after the operation
+    pub commit_post: &'a str,
+    /// every conversion call made DURING the operation: (engine kind, composition asked about, all alternatives)
+    pub conv: &'a [(u8, String, Vec<Vec<Interval>>)],
 }
 
 impl Step<'_> {
